@@ -43,6 +43,9 @@ GEOMS = {
         dict(ver=1, spc=12, W=3, cut=0, skew=5),
         # a window deep inside the BAT
         dict(ver=2, spc=8, W=3, cut=3, skew=0, at=1022),
+        # windows beyond 16384 / 65536 BAT entries (page and chunk sizes of table readers)
+        dict(ver=2, spc=8, W=3, cut=0, skew=0, at=16383),
+        dict(ver=1, spc=3, W=3, cut=1, skew=0, at=65535),
         # BAT entries around 2^31 (v1: sectors, the cluster lies at the 1 TiB mark; v2: cluster numbers) and near 2^32
         dict(ver=1, spc=2048, W=3, cut=9, skew=0, big=True, slot_off=(1 << 20) - 3),
         dict(ver=2, spc=8, W=3, cut=1, skew=0, big=True, slot_off=(1 << 31) - 3),
